@@ -1027,7 +1027,12 @@ def n_checked(ex, callee, a, env):
         r = {'checked_add': x + y, 'checked_sub': x - y, 'checked_mul': x * y}[op]
         lo, hi = (-(1 << (bits - 1)), (1 << (bits - 1)) - 1) if signed else (0, (1 << bits) - 1)
         return Some(r) if lo <= r <= hi else NONE()
-    raise Unsupported('symbolic ' + op)
+    from .engine import int_arith
+    t = int_arith(ex, {'checked_add': 'Add', 'checked_sub': 'Sub', 'checked_mul': 'Mul'}[op], deref(x), deref(y), signed, bits, True)
+    ov = t.f[1]
+    if (ov is True) or (is_sym(ov) and ex.truth(ov)):
+        return NONE()
+    return Some(t.f[0])
 
 
 @native(r'::(wrapping_add|wrapping_sub|wrapping_mul|saturating_sub|saturating_add)$', 'int::wrapping/saturating')
